@@ -496,6 +496,208 @@ def renderSeq (m : Mode) (files : Files) (fuel : Nat) : Cache → List Req → L
   | _, [] => []
   | c, q :: qs => (renderOn m files fuel c q).1 :: renderSeq m files fuel (renderOn m files fuel c q).2 qs
 
+/-! ## the specification: an include stands for its target
+
+"Included content replaces the include element, sees the including template's data at that point,
+contributes its macros and match templates to the includer from that point on, fallback content is used
+exactly when the target is missing, and a missing target without fallback raises the not-found error":
+the include node is rendered as the node list of its target **in place** — same context, same window of
+match templates, nothing restarted, no loader state — and everything else as in `renderN`.  Entering the
+target costs one unit of fuel (it is a level of nesting), like entering a macro body. -/
+
+mutual
+def specN (files : Files) (J : RJ) (rng : Rng) : Node → St → R
+  | .text s, st => .ok ([.text s], st)
+  | .var x, st =>
+    match st.lookup x with
+    | none => .err .undefined
+    | some v => match v.text? with
+      | none => .err .unmodelled
+      | some s => .ok ([.text s], st)
+  | .elem tag body, st =>
+    match firstMatch st.mts rng tag with
+    | none =>
+      (specL files J rng body st).bind fun r => .ok (.start tag :: r.1 ++ [.stop tag], r.2)
+    | some (idx, mb) =>
+      (specL files J ⟨rng.lo, some (idx + 1), false⟩ body st).bind fun r =>
+        (J ⟨idx + 1, rng.hi, false⟩ mb { r.2 with sel := r.1 :: r.2.sel }).bind fun r' =>
+          .ok (r'.1, { r'.2 with sel := r'.2.sel.tail })
+  | .cond c body, st =>
+    (evalCond st c).bind fun b => if b then specL files J rng body st else .ok ([], st)
+  | .loop x xs body, st =>
+    match st.lookup xs with
+    | none => .err .undefined
+    | some v => loopItems (fun st' => specL files J rng body st') x v.items st
+  | .defn m body, st => .ok ([], { st with macros := (m, body) :: st.macros })
+  | .call m, st =>
+    match st.macros.lookup m with
+    | some body => J rng body st
+    | none => match st.lookup m with
+      | none => .err .undefined
+      | some _ => .err .unmodelled
+  | .matchT tag body, st => .ok ([], { st with mts := st.mts ++ [(tag, body)] })
+  | .select, st =>
+    match st.sel with
+    | [] => .err .undefined
+    | c :: _ => J rng (evsToNodes c) st
+  | .include href cls hasFb fb pos, st =>
+    (evalHref st href).bind fun h =>
+      match resolve pos h with
+      | none => .err .unmodelled
+      | some name =>
+        match loadRaw files name cls with
+        | .ok body => J rng body st                  -- the target's content, in place
+        | .err .notFound => if hasFb then specL files J rng fb st else .err .notFound
+        | .err e => .err e
+        | .fuel => .fuel
+  | .inlined body, st => J rng body st
+termination_by structural n => n
+def specL (files : Files) (J : RJ) (rng : Rng) : List Node → St → R
+  | [], st => .ok ([], st)
+  | n :: ns, st =>
+    (specN files J rng n st).bind fun r1 =>
+      (specL files J rng ns r1.2).bind fun r2 => .ok (r1.1 ++ r2.1, r2.2)
+termination_by structural l => l
+end
+
+def spec (files : Files) : Nat → RJ
+  | 0, _, _, _ => .fuel
+  | f + 1, rng, ns, st => specL files (spec files f) rng ns st
+
+/-- what the property says `load(entry).generate(**data)` produces, whatever the loader mode -/
+def renderSpec (files : Files) (entry : Name) (kind : Kind) (data : List (Name × Value)) (fuel : Nat) :
+    Res (List Ev) :=
+  (loadRaw files entry kind).bind fun body =>
+    (specL files (spec files fuel) (.ofKind kind) body (St.init data)).map (·.1)
+
+mutual
+/-- no match template is defined in the stream, at any depth -/
+def noMtN : Node → Bool
+  | .text _ | .var _ | .call _ | .select => true
+  | .matchT _ _ => false
+  | .elem _ b | .cond _ b | .loop _ _ b | .defn _ b | .inlined b => noMtL b
+  | .include _ _ _ fb _ => noMtL fb
+termination_by structural n => n
+def noMtL : List Node → Bool
+  | [] => true
+  | n :: ns => noMtN n && noMtL ns
+termination_by structural l => l
+end
+
+/-- no file of the set defines a match template -/
+def noMtFiles (files : Files) : Bool :=
+  files.all fun d => d.all fun e => match e.2.body with | none => true | some b => noMtL b
+
+/-! ## the loader after a render that failed
+
+A render that raises leaves the loader with every template it had loaded — and, with `auto_reload` off,
+prepared — up to that point (`Template._prepare_self` assigns `_stream` only after `_prepare` has run to
+its end, so a template is either prepared or untouched).  The evaluator drops its state on an error, so
+the loads are collected by a second traversal (`logN/logL/logR`: same control flow, the sub-results are
+taken from `renderN/renderL`), and the cache after the failure is the cache with these loads replayed. -/
+
+/-- a `loader.load(name, cls=…)` performed while rendering -/
+abbrev Load := Name × Kind
+
+/-- the loads of entering another stream (at lower fuel) -/
+abbrev LJ := Rng → List Node → St → List Load
+
+/-- `py:for`: the loads of the items rendered, up to the item that fails -/
+def logItems (k : St → R) (lk : St → List Load) (x : Name) : List Value → St → List Load
+  | [], _ => []
+  | v :: vs, st =>
+    lk { st with frames := (x, v) :: st.frames } ++
+      (match k { st with frames := (x, v) :: st.frames } with
+       | .ok r1 => logItems k lk x vs { r1.2 with frames := r1.2.frames.tail }
+       | _ => [])
+
+mutual
+/-- the templates loaded (found) while rendering a node, in order, whether or not the rendering succeeds -/
+def logN (m : Mode) (files : Files) (J : RJ) (L : LJ) (rng : Rng) : Node → St → List Load
+  | .text _, _ => []
+  | .var _, _ => []
+  | .defn _ _, _ => []
+  | .matchT _ _, _ => []
+  | .elem tag body, st =>
+    (match firstMatch st.mts rng tag with
+     | none => logL m files J L rng body st
+     | some (idx, mb) =>
+       logL m files J L ⟨rng.lo, some (idx + 1), false⟩ body st ++
+         (match renderL m files J ⟨rng.lo, some (idx + 1), false⟩ body st with
+          | .ok r => L ⟨idx + 1, rng.hi, false⟩ mb { r.2 with sel := r.1 :: r.2.sel }
+          | _ => []))
+  | .cond c body, st =>
+    (match evalCond st c with
+     | .ok true => logL m files J L rng body st
+     | _ => [])
+  | .loop x xs body, st =>
+    (match st.lookup xs with
+     | none => []
+     | some v => logItems (fun st' => renderL m files J rng body st') (fun st' => logL m files J L rng body st') x v.items st)
+  | .call mn, st =>
+    (match st.macros.lookup mn with
+     | some body => L rng body st
+     | none => [])
+  | .select, st =>
+    (match st.sel with
+     | [] => []
+     | c :: _ => L rng (evsToNodes c) st)
+  | .include href cls hasFb fb pos, st =>
+    (match evalHref st href with
+     | .ok h =>
+       (match resolve pos h with
+        | none => []
+        | some name =>
+          match loadT m files name cls st with
+          | .ok (body, st1) => (name, cls) :: L (.ofKind cls) body st1
+          | .err .notFound => if hasFb then logL m files J L rng.fresh fb st else []
+          | _ => [])
+     | _ => [])
+  | .inlined body, st => L rng body st
+termination_by structural n => n
+def logL (m : Mode) (files : Files) (J : RJ) (L : LJ) (rng : Rng) : List Node → St → List Load
+  | [], _ => []
+  | n :: ns, st =>
+    logN m files J L rng n st ++
+      (match renderN m files J rng n st with
+       | .ok r => logL m files J L rng ns r.2
+       | _ => [])
+termination_by structural l => l
+end
+
+def logR (m : Mode) (files : Files) : Nat → LJ
+  | 0, _, _, _ => []
+  | f + 1, rng, ns, st => logL m files (render m files f) (logR m files f) rng ns st
+
+/-- the loader's cache of prepared templates after these loads (a load that fails leaves it alone) -/
+def replayLoads (files : Files) : Cache → List Load → Cache
+  | c, [] => c
+  | c, l :: ls =>
+    match loadInl files l.1 l.2 c with
+    | .ok r => replayLoads files r.2 ls
+    | _ => replayLoads files c ls
+
+/-- the cache a failed render leaves behind: the entry as loaded, then every template loaded on the way -/
+def cacheAfterFail (m : Mode) (files : Files) (fuel : Nat) (c : Cache) (q : Req) : Cache :=
+  match m with
+  | .runtime => c
+  | _ =>
+    match loadT m files q.1 q.2.1 { St.init q.2.2 with cache := c } with
+    | .ok (body, st1) =>
+      replayLoads files st1.cache (logL m files (render m files fuel) (logR m files fuel) (.ofKind q.2.1) body st1)
+    | _ => c
+
+/-- `renderOn` with the loader state after a failure as the code leaves it -/
+def renderOnF (m : Mode) (files : Files) (fuel : Nat) (c : Cache) (q : Req) : Res (List Ev) × Cache :=
+  match (renderOn m files fuel c q).1 with
+  | .ok evs => (.ok evs, (renderOn m files fuel c q).2)
+  | r => (r, cacheAfterFail m files fuel c q)
+
+/-- outcomes and the loader's cache after each request -/
+def renderSeqF (m : Mode) (files : Files) (fuel : Nat) : Cache → List Req → List (Res (List Ev) × Cache)
+  | _, [] => []
+  | c, q :: qs => renderOnF m files fuel c q :: renderSeqF m files fuel (renderOnF m files fuel c q).2 qs
+
 mutual
 /-- resolved targets of the statically named includes in a stream, at any depth -/
 def targetsN : Node → List Name
